@@ -1,7 +1,8 @@
 (* Proofs/RecordsFetch.v — both fetch paths on sequences of v2 batches: same records. *)
 From Coq Require Import List NArith ZArith Bool Lia.
 From KV Require Import Lib.Bits Lib.Bytes Lib.Crc Spec.RecordFormat Model.Records
-  Proofs.RecordsCodec Proofs.RecordsSet Proofs.RecordsWriters Proofs.RecordsReaders Proofs.RecordsConn.
+  Proofs.RecordsCodec Proofs.RecordsSet Proofs.RecordsWriters Proofs.RecordsReaders Proofs.RecordsConn
+  Proofs.RecordsReadersV1.
 Import ListNotations.
 Open Scope Z_scope.
 
@@ -75,3 +76,14 @@ Lemma crc_mismatch_v2 : forall comp decomp : N -> list N -> list N,
   proto_read decomp (put_bes 4 (zlen content) ++ content) =
   POut (records (map IBatch bs)) (match bs with [] => true | _ => false end).
 Proof. intros comp decomp Hdc. apply proto_read_crc_mismatch. exact Hdc. Qed.
+
+Lemma control_hidden_items : forall comp decomp : N -> list N -> list N,
+  (forall c b, decomp c (comp c b) = b) ->
+  forall its, Forall (item_ok comp) its -> zlen (enc_items comp its) < ZM31 ->
+  proto_read decomp (enc_set comp its) = POut (flat_map (records_of false) its) false /\
+  (forall b, is_control (b_attrs b) = true -> records_of false (IBatch b) = []).
+Proof.
+  intros comp decomp Hdc its Hok Hsz. split.
+  - apply (proto_read_items comp decomp Hdc its Hok Hsz).
+  - intros b Hc. unfold records_of. rewrite Hc. reflexivity.
+Qed.
